@@ -13,9 +13,9 @@ Lemma pf_pp_start : forall r, prefix_of kw_pp (kw_start ++ r) = false. Proof. re
 Lemma pf_token_start : forall r, prefix_of kw_token (kw_start ++ r) = false. Proof. reflexivity. Qed.
 Lemma pf_actiontype_start : forall r, prefix_of kw_actiontype (kw_start ++ r) = false. Proof. reflexivity. Qed.
 
-Lemma decl_step_start : forall nm, decl_step_for (DStart nm).
+Lemma decl_step_start : forall k nm, decl_step_for k (DStart nm).
 Proof.
-  intros nm src pre dl rest i f n a g e lvl Hs Hi Hwf Hpre.
+  intros k nm src pre dl rest i f n a g e lvl Hs Hi Hwf Hk Hpre.
   cbn [print_decl] in Hs. cbn [wf_decl] in Hwf. destruct Hwf as [[Hl0 Hn0] [Hname Hl1]].
   cbn [decl_pre] in Hpre.
   assert (Hs0 : src = pre ++ (kw_start ++ (dg dl 0 ++ nm ++ dg dl 1 ++ 37%N :: rest))) by (rewrite Hs; lsolve).
@@ -23,8 +23,7 @@ Proof.
   rewrite (lt_len_at _ _ _ _ _ Hs0 Hi). cbn [negb].
   rewrite (look_at _ _ _ _ _ _ Hs0 Hi), pf_pp_start. cbn [sbind is_some ret lift lifto].
   rewrite (look_at _ _ _ _ _ _ Hs0 Hi), pf_token_start. cbn [sbind is_some ret lift lifto].
-  unfold is_original.
-  rewrite (look_at _ _ _ _ _ _ Hs0 Hi), pf_actiontype_start. cbn [sbind is_some ret lift lifto].
+  rewrite (look_actiontype_skip k _ _ _ _ _ Hs0 Hi (pf_actiontype_start _)). cbn [sbind is_some ret lift lifto].
   rewrite (look_at _ _ _ _ _ _ Hs0 Hi), prefix_of_self. cbn [sbind is_some ret lift lifto].
   unfold decl_start.
   assert (Hs1 : src = (pre ++ kw_start) ++ dg dl 0 ++ (nm ++ dg dl 1 ++ 37%N :: rest)) by (rewrite Hs; lsolve).
@@ -86,9 +85,9 @@ Proof.
     cbn [app not_starting]. apply digit_not_dash. tauto.
 Qed.
 
-Lemma decl_step_expect : forall v, decl_step_for (DExpect v).
+Lemma decl_step_expect : forall k v, decl_step_for k (DExpect v).
 Proof.
-  intros v src pre dl rest i f n a g e lvl Hs Hi Hwf Hpre.
+  intros k v src pre dl rest i f n a g e lvl Hs Hi Hwf Hk Hpre.
   cbn [print_decl] in Hs. cbn [wf_decl] in Hwf. destruct Hwf as [[Hl0 Hn0] [Hnum Hl1]].
   cbn [decl_pre] in Hpre.
   destruct (numeral_facts _ _ (dg dl 1 ++ 37%N :: rest) Hnum) as [Hne [Hd [Hpu [Hr1 Hnd]]]].
@@ -99,8 +98,7 @@ Proof.
   rewrite (lt_len_at _ _ _ _ _ Hs0 Hi). cbn [negb].
   rewrite (look_at _ _ _ _ _ _ Hs0 Hi), pf_pp_expect. cbn [sbind is_some ret lift lifto].
   rewrite (look_at _ _ _ _ _ _ Hs0 Hi), pf_token_expect. cbn [sbind is_some ret lift lifto].
-  unfold is_original.
-  rewrite (look_at _ _ _ _ _ _ Hs0 Hi), pf_actiontype_expect. cbn [sbind is_some ret lift lifto].
+  rewrite (look_actiontype_skip k _ _ _ _ _ Hs0 Hi (pf_actiontype_expect _)). cbn [sbind is_some ret lift lifto].
   rewrite (look_at _ _ _ _ _ _ Hs0 Hi), pf_start_expect. cbn [sbind is_some ret lift lifto].
   rewrite (look_at _ _ _ _ _ _ Hs0 Hi), pf_epp_expect. cbn [sbind is_some ret lift lifto].
   rewrite (look_at _ _ _ _ _ _ Hs0 Hi), (pf_rr_expect _ Hdash). cbn [sbind is_some ret lift lifto].
@@ -132,9 +130,9 @@ Lemma pf_actiontype_rr : forall r, prefix_of kw_actiontype (kw_expect_rr ++ r) =
 Lemma pf_start_rr : forall r, prefix_of kw_start (kw_expect_rr ++ r) = false. Proof. reflexivity. Qed.
 Lemma pf_epp_rr : forall r, prefix_of kw_epp (kw_expect_rr ++ r) = false. Proof. reflexivity. Qed.
 
-Lemma decl_step_expectrr : forall v, decl_step_for (DExpectRR v).
+Lemma decl_step_expectrr : forall k v, decl_step_for k (DExpectRR v).
 Proof.
-  intros v src pre dl rest i f n a g e lvl Hs Hi Hwf Hpre.
+  intros k v src pre dl rest i f n a g e lvl Hs Hi Hwf Hk Hpre.
   cbn [print_decl] in Hs. cbn [wf_decl] in Hwf. destruct Hwf as [[Hl0 Hn0] [Hnum Hl1]].
   cbn [decl_pre] in Hpre.
   destruct (numeral_facts _ _ (dg dl 1 ++ 37%N :: rest) Hnum) as [Hne [Hd [Hpu [Hr1 _]]]].
@@ -143,8 +141,7 @@ Proof.
   rewrite (lt_len_at _ _ _ _ _ Hs0 Hi). cbn [negb].
   rewrite (look_at _ _ _ _ _ _ Hs0 Hi), pf_pp_rr. cbn [sbind is_some ret lift lifto].
   rewrite (look_at _ _ _ _ _ _ Hs0 Hi), pf_token_rr. cbn [sbind is_some ret lift lifto].
-  unfold is_original.
-  rewrite (look_at _ _ _ _ _ _ Hs0 Hi), pf_actiontype_rr. cbn [sbind is_some ret lift lifto].
+  rewrite (look_actiontype_skip k _ _ _ _ _ Hs0 Hi (pf_actiontype_rr _)). cbn [sbind is_some ret lift lifto].
   rewrite (look_at _ _ _ _ _ _ Hs0 Hi), pf_start_rr. cbn [sbind is_some ret lift lifto].
   rewrite (look_at _ _ _ _ _ _ Hs0 Hi), pf_epp_rr. cbn [sbind is_some ret lift lifto].
   rewrite (look_at _ _ _ _ _ _ Hs0 Hi), prefix_of_self. cbn [sbind is_some ret lift lifto].
@@ -180,9 +177,9 @@ Proof. intros [| |] r; reflexivity. Qed.
 Lemma qchar_not_tok_cont : forall q, tok_cont (qchar q) = false.
 Proof. intros [| |]; reflexivity. Qed.
 
-Lemma decl_step_epp : forall t v, decl_step_for (DEpp t v).
+Lemma decl_step_epp : forall k t v, decl_step_for k (DEpp t v).
 Proof.
-  intros t v src pre dl rest i f n a g e lvl Hs Hi Hwf Hpre.
+  intros k t v src pre dl rest i f n a g e lvl Hs Hi Hwf Hk Hpre.
   cbn [print_decl] in Hs. cbn [wf_decl] in Hwf.
   destruct Hwf as [[Hl0 Hn0] [Hq [[Hl1 Hn1] [Hsq [Hesc Hl2]]]]].
   cbn [decl_pre] in Hpre.
@@ -193,8 +190,7 @@ Proof.
   rewrite (lt_len_at _ _ _ _ _ Hs0 Hi). cbn [negb].
   rewrite (look_at _ _ _ _ _ _ Hs0 Hi), pf_pp_epp. cbn [sbind is_some ret lift lifto].
   rewrite (look_at _ _ _ _ _ _ Hs0 Hi), pf_token_epp. cbn [sbind is_some ret lift lifto].
-  unfold is_original.
-  rewrite (look_at _ _ _ _ _ _ Hs0 Hi), pf_actiontype_epp. cbn [sbind is_some ret lift lifto].
+  rewrite (look_actiontype_skip k _ _ _ _ _ Hs0 Hi (pf_actiontype_epp _)). cbn [sbind is_some ret lift lifto].
   rewrite (look_at _ _ _ _ _ _ Hs0 Hi), pf_start_epp. cbn [sbind is_some ret lift lifto].
   rewrite (look_at _ _ _ _ _ _ Hs0 Hi), prefix_of_self. cbn [sbind is_some ret lift lifto].
   unfold decl_epp.
